@@ -910,7 +910,96 @@ class _Counter:
         return self.start + i * self.step
 
 
+def _mod_dataclasses(interp, m):
+    def field(i, a, k, n):
+        return ("$field", k.get("default", _missing()), k.get("default_factory"))
+
+    def dataclass(i, a, k, n):
+        def apply(cls):
+            if not isinstance(cls, ClassV):
+                raise Unsupported("dataclass on a non-class", n)
+            names = []
+            for c in reversed(cls.mro):
+                for nm in c.annotations:
+                    if nm not in names and not str(c.annotations[nm]).startswith("ClassVar"):
+                        names.append(nm)
+
+            def init(i2, a2, k2, n2, cls=cls, names=names):
+                self_ = a2[0]
+                pos = list(a2[1:])
+                for j, nm in enumerate(names):
+                    if j < len(pos):
+                        v = pos[j]
+                    elif nm in k2:
+                        v = k2[nm]
+                    else:
+                        c_, v = cls.lookup(nm)
+                        if c_ is None:
+                            from .interp import AbsRaise
+
+                            raise AbsRaise(i2.make_exc("TypeError", f"missing argument {nm}"), i2.site(n2), True)
+                        if isinstance(v, tuple) and len(v) == 3 and v[0] == "$field":
+                            v = i2.call(v[2], [], {}, n2) if v[2] is not None else v[1]
+                    self_.fields[nm] = v
+                c_, post = cls.lookup("__post_init__")
+                if post is not None:
+                    i2.call(i2.bind(post, self_, c_), [], {}, n2)
+                return None
+
+            b = BuiltinV(f"{cls.name}.__init__", init)
+            b.is_method = True
+            if "__init__" not in cls.ns:
+                cls.ns["__init__"] = b
+            return cls
+
+        if len(a) == 1 and not k and isinstance(a[0], ClassV):
+            return apply(a[0])
+        return BuiltinV("dataclasses.<dataclass>", lambda i2, a2, k2, n2: apply(a2[0]))
+
+    m.ns["dataclass"] = BuiltinV("dataclasses.dataclass", dataclass)
+    m.ns["field"] = BuiltinV("dataclasses.field", field)
+    _ext_default_getter(m, "dataclasses")
+
+
+def _mod_operator(interp, m):
+    import ast as _ast
+
+    def binop(opcls):
+        return lambda i, a, k, n: i.binop(opcls(), a[0], a[1], n)
+
+    def cmpop(opcls):
+        return lambda i, a, k, n: i.compare(opcls(), a[0], a[1], n)
+
+    for name, opcls in (("add", _ast.Add), ("sub", _ast.Sub), ("mul", _ast.Mult), ("truediv", _ast.Div), ("xor", _ast.BitXor), ("mod", _ast.Mod)):
+        m.ns[name] = BuiltinV("operator." + name, binop(opcls))
+    for name, opcls in (("lt", _ast.Lt), ("le", _ast.LtE), ("gt", _ast.Gt), ("ge", _ast.GtE), ("eq", _ast.Eq), ("ne", _ast.NotEq), ("is_", _ast.Is), ("is_not", _ast.IsNot)):
+        m.ns[name] = BuiltinV("operator." + name, cmpop(opcls))
+    m.ns["not_"] = BuiltinV("operator.not_", lambda i, a, k, n: (a[0].negate() if isinstance(a[0], Cond) else not i.truth(a[0], n)))
+    m.ns["truth"] = BuiltinV("operator.truth", lambda i, a, k, n: i.truth(a[0], n))
+    m.ns["contains"] = BuiltinV("operator.contains", lambda i, a, k, n: i.contains(a[0], a[1], n))
+    m.ns["getitem"] = BuiltinV("operator.getitem", lambda i, a, k, n: i.subscript(a[0], a[1], n))
+
+    def attrgetter(i, a, k, n):
+        names = list(a)
+        return BuiltinV("operator.attrgetter(...)", lambda i2, a2, k2, n2: (i2.getattr(a2[0], names[0], n2) if len(names) == 1 else tuple(i2.getattr(a2[0], nm, n2) for nm in names)))
+
+    def itemgetter(i, a, k, n):
+        keys = list(a)
+        return BuiltinV("operator.itemgetter(...)", lambda i2, a2, k2, n2: (i2.subscript(a2[0], keys[0], n2) if len(keys) == 1 else tuple(i2.subscript(a2[0], kk, n2) for kk in keys)))
+
+    def methodcaller(i, a, k, n):
+        nm, rest = a[0], list(a[1:])
+        return BuiltinV("operator.methodcaller(...)", lambda i2, a2, k2, n2: i2.call(i2.getattr(a2[0], nm, n2), rest, dict(k), n2))
+
+    m.ns["attrgetter"] = BuiltinV("operator.attrgetter", attrgetter)
+    m.ns["itemgetter"] = BuiltinV("operator.itemgetter", itemgetter)
+    m.ns["methodcaller"] = BuiltinV("operator.methodcaller", methodcaller)
+    _ext_default_getter(m, "operator")
+
+
 _MODEL_MODULES = {
+    "dataclasses": _mod_dataclasses,
+    "operator": _mod_operator,
     "itertools": _mod_itertools,
     "typing": _mod_typing,
     "inspect": _mod_inspect,
